@@ -142,3 +142,39 @@ func T6() {
 	vrt.Assert("tag", h1 != h3)
 	vrt.Reach("end")
 }
+
+func findFirst(xs []int, l int, want int) bool {
+	if l == 0 {
+		return false
+	}
+	for i := 0; i < len(xs); i++ {
+		if i < l && xs[i] == want {
+			cnt := 0
+			for k := 0; k < len(xs); k++ {
+				if k < l && xs[k] == want {
+					cnt++
+				}
+			}
+			if cnt >= 2 {
+				return true
+			}
+		}
+	}
+	return false
+}
+
+// T7: early returns from nested loops; must find the violation (result is not constant).
+func T7() {
+	xs := make([]int, 4)
+	for i := range xs {
+		xs[i] = vrt.Int(vrt.N("x", i))
+	}
+	l := vrt.Int("l")
+	vrt.Assume(l >= 0 && l <= 4)
+	r := findFirst(xs, l, 7)
+	vrt.Assert("notalways", r)
+	if r {
+		vrt.Assert("two sevens", (xs[0] == 7 && xs[1] == 7) || (xs[0] == 7 && xs[2] == 7) || (xs[0] == 7 && xs[3] == 7) || (xs[1] == 7 && xs[2] == 7) || (xs[1] == 7 && xs[3] == 7) || (xs[2] == 7 && xs[3] == 7))
+	}
+	vrt.Reach("end")
+}
